@@ -88,9 +88,11 @@ def equivalent_stress(self: Profile):
         and hasattr(self, "latitudinal_stress")
     ):
         return np.sqrt(
-            1 / 2 * (self.longitudinal_stress - self.altitudinal_stress) ** 2
-            + (self.altitudinal_stress - self.latitudinal_stress) ** 2
-            + (self.latitudinal_stress - self.longitudinal_stress) ** 2
+            1 / 2 * (
+                (self.longitudinal_stress - self.altitudinal_stress) ** 2
+                + (self.altitudinal_stress - self.latitudinal_stress) ** 2
+                + (self.latitudinal_stress - self.longitudinal_stress) ** 2
+            )
         )
 
 
